@@ -387,7 +387,7 @@ class DemandSchedules(Contract):
 
     def inputs(self, S):
         kf, kb = S.real("FEED_KCALS"), S.real("BIOFUEL_KCALS")
-        others = [S.real(n) for n in ("ff", "fp", "bf", "bp")]
+        others = [S.real(n) for n in ("feed_fat", "feed_protein", "biofuel_fat", "biofuel_protein")]
         S.assume(And(kf >= 0, kb >= 0, *[x >= 0 for x in others]))
         S.set_conversions(S.real("kd"), S.real("fd"), S.real("pd"), False, False, S.real("pop"))
         consts = {"NMONTHS": self.N, "BIOFUEL_KCALS": unwrap(kb), "BIOFUEL_FAT": unwrap(others[2]), "BIOFUEL_PROTEIN": unwrap(others[3]),
@@ -404,6 +404,37 @@ class DemandSchedules(Contract):
         return {"biofuel_demand_is_baseline_until_the_biofuel_shut_off_month_then_zero": [gb[m] == (mb if m < self.bm else 0) for m in range(N)],
                 "feed_demand_is_baseline_until_the_feed_shut_off_month_then_zero": [gf[m] == (mf if m < self.fm else 0) for m in range(N)],
                 "one_value_per_month": V(length(V(bio).kcals) == N and length(V(feed).kcals) == N)}
+
+
+class YearOneRatio(Contract):
+    """The year-1 (May-December) disruption ratio as documented in the function's docstring: the share of the harvest
+    gathered before May is 1 for ZAF, 0 for JPN / PRK / KOR and the January-April seasonality otherwise; what is left
+    of the first-year ratio after subtracting it is spread over the remaining months (or kept at 1 when those months
+    carry less than a quarter of the harvest; 0 when nothing is left)."""
+    prop = "C08"
+    file = OC
+    func = "OutdoorCrops.get_year_1_ratio_using_fraction_harvest_before_may"
+    merge = True
+    np_floats = True
+
+    def __init__(self, iso3):
+        self.iso3 = iso3
+        self.name = f"country {iso3}"
+
+    def inputs(self, S):
+        season = [S.real(f"season{m}") for m in range(12)]
+        S.assume(And(*[x >= 0 for x in season]))
+        S.assume(Sum(season) == 1)
+        r = S.real("first_year_ratio")
+        S.assume(And(r >= 0, r < 101))
+        return dict(args=[S.obj(OC, "OutdoorCrops"), r, [unwrap(x) for x in season], self.iso3], season=season, r=r)
+
+    def ensures(self, S, a, res):
+        before = {"ZAF": V(1), "JPN": V(0), "PRK": V(0), "KOR": V(0)}.get(self.iso3, Sum(a["season"][:4]))
+        left = a["r"] - before
+        after_may = 1 - before
+        want = If(left <= 0, 0, If(after_may < Fraction(1, 4), 1, left / after_may))
+        return {"year_one_ratio_is_the_documented_function": res == want, "ratio_non_negative": res >= 0}
 
 
 def _mk():
@@ -425,8 +456,10 @@ def _mk():
             cs.append(Demand("feed", N, dur))
             cs.append(Demand("biofuel", N, dur))
         # the shipped presets: immediate, one month, short delayed (2, 1), long delayed (3, 2), after-10-percent (12, 6), continued
-        for fm, bm in ((0, 0), (1, 1), (2, 1), (3, 2), (12, 6), (N, N)):
+        for fm, bm in ((0, 0), (1, 1), (2, 1), (3, 2), (12, 6), (N, N), (2, 4), (0, 3)):
             cs.append(DemandSchedules(N, fm, bm))
+    for iso3 in ("ZAF", "JPN", "PRK", "KOR", "USA", "WOR"):
+        cs.append(YearOneRatio(iso3))
     return cs
 
 
